@@ -752,4 +752,25 @@ theorem cache_nested_example :
           "Mid" "" [.lower] cacheMid none false).2.length) = 3 := by
   decide
 
+def adG : List Fld := [.scalar "a" false, .scalar "b" true]
+def adMid : List Fld := [.nested "g" false .one { ser := [.dict [(.fld "a", .key "z")]] } adG, .scalar "y" false]
+def adTop : Cls :=
+  { own := [.dict [(.fld "m", .key "mm")]],
+    fields := [.nested "m" false .one { ser := [.dict [(.fld "g", .key "gg")]] } adMid] }
+def adInst : J := .obj [("m", .obj [("g", .obj [("a", .int 1), ("b", .null)]), ("y", .int 3)])]
+
+/-- non-vacuity of the second alternative of the region: a tree of dict mappers only may rename at *every*
+    depth (the grand-nested class `G` renames `a` to `z`, the very shape of finding `nested-resync` but
+    without an enum mapper above it) — inside the region, inside the domain, and the keys are the renamed
+    ones at every level -/
+theorem region_all_dict_example :
+    regionOK idFns adTop none false = true
+    ∧ rtCls idFns false (levelDomE idFns) adTop (aggregate idFns true adTop.own adTop.fields none false)
+        none false adInst = true
+    ∧ isOkEq (.ok (serialize idFns false adTop none adInst))
+        (fun d => match d with
+          | .obj [("mm", .obj [("gg", .obj [("z", .int 1)]), ("y", .int 3)])] => true
+          | _ => false) = true := by
+  decide
+
 end Typedpy.C07
